@@ -721,3 +721,99 @@ def inst_signal_transform():
 _stc = Contract("pulsarbat.transforms.transforms.signal_transform", spec_signal_transform, inst_signal_transform(), props=("C09", "C16"), body=_st_body)
 _stc.no_bounded = True
 CONTRACTS.append(_stc)
+
+
+# --------------------------------------------------------------------------- more lemmas: grouping (C10), pipelines of crops (C01)
+
+def _grouped_body(left):
+    def body(interp, ctx, a, k):
+        z, c1, c2 = a
+        p = [M(interp, ctx, z, "__getitem__", SSlice(None, c1, None)), M(interp, ctx, z, "__getitem__", SSlice(c1, c2, None)),
+             M(interp, ctx, z, "__getitem__", SSlice(c2, None, None))]
+        if left:
+            return _call_concat(interp, ctx, [_call_concat(interp, ctx, p[:2], 0), p[2]], 0)
+        return _call_concat(interp, ctx, [p[0], _call_concat(interp, ctx, p[1:], 0)], "time")
+    return body
+
+
+lemma("C10.grouping-left", _grouped_body(True), _spec_identity(True), inst_split(["Signal", "BasebandSignal"]), ("C10",),
+      real=lambda pb, a, k: pb.concatenate([pb.concatenate([a[0][:a[1]], a[0][a[1]:a[2]]]), a[0][a[2]:]]))
+lemma("C10.grouping-right", _grouped_body(False), _spec_identity(True), inst_split(["Signal", "RadioSignal"]), ("C10",),
+      real=lambda pb, a, k: pb.concatenate([a[0][:a[1]], pb.concatenate([a[0][a[1]:a[2]], a[0][a[2]:]])], axis="time"))
+
+
+def _pipeline_body(interp, ctx, a, k):
+    z, s1, s2 = a
+    y = M(interp, ctx, z, "__getitem__", s1)
+    y = interp.call(interp.funcval_for("pulsarbat.transforms.transforms.fast_len"), (y,), {}, ctx)
+    return M(interp, ctx, y, "__getitem__", s2)
+
+
+class PipelineLedger:
+    """every sample retained by slice -> fast_len -> slice carries the absolute time of the input sample
+    it was taken from; the rate is divided by the product of the steps; stop = start + len/rate."""
+
+    def __init__(self, c, z, s1, s2):
+        self.c, self.z, self.s1, self.s2 = c, z, s1, s2
+
+    def compare_to(self, interp, ctx, name, got):
+        c = self.c
+        g = c.view(self.z)
+        if not isinstance(got, Obj):
+            ctx.oblige(f"{name}.is-signal", False, "post")
+            return
+        r = c.view(got)
+        a1, b1, st1 = A.slice_adjust(ctx, self.s1, g.N)
+        L1 = A.slice_len(ctx, a1, b1, st1)
+        L2 = c.call("pulsarbat.utils.prev_fast_len", L1)
+        a2, b2, st2 = A.slice_adjust(ctx, self.s2, L2)
+        ctx.oblige(f"{name}.type", got.cls is self.z.cls, "post")
+        ctx.oblige(f"{name}.rate", V.eq(V.mul(r.sr.val, V.mul(st1, st2)), g.sr.val), "post")
+        ctx.oblige(f"{name}.length", V.eq(r.N, A.slice_len(ctx, a2, b2, st2)), "post")
+        if g.t0 is None:
+            ctx.oblige(f"{name}.no-start-acquired", r.t0 is None, "post")
+            return
+        if r.t0 is None:
+            ctx.oblige(f"{name}.start-kept", False, "post")
+            return
+
+        def at(k):
+            src = V.add(a1, V.mul(st1, V.add(a2, V.mul(st2, k))))
+            ctx.oblige(f"{name}.sample-time", V.eq(V.add(r.t0.sec, V.div(ctx, k, r.sr.val)), V.add(g.t0.sec, V.div(ctx, src, g.sr.val))), "post")
+            ix = (k,) + tuple(0 for _ in r.data.shape[1:])
+            sx = (src,) + tuple(0 for _ in r.data.shape[1:])
+            ge, we = r.data.elem(ix), g.data.elem(sx)
+            ctx.oblige(f"{name}.sample-value", V.ceq(ge, we) if isinstance(ge, Cx) or isinstance(we, Cx) else V.eq(ge, we), "post")
+        c.forall_int("k", 0, r.N, at)
+
+    def compare_concrete(self, got, where, out, pb):
+        pass
+
+
+def _spec_pipeline(c, z, s1, s2):
+    g = c.view(z)
+    a1, b1, st1 = A.slice_adjust(c.ctx, s1, g.N)
+    c.raise_if(V.lt(st1, 0), "AssertionError", "negative step")
+    L1 = A.slice_len(c.ctx, a1, b1, st1)
+    L2 = c.call("pulsarbat.utils.prev_fast_len", L1)
+    a2, b2, st2 = A.slice_adjust(c.ctx, s2, L2)
+    c.raise_if(V.lt(st2, 0), "AssertionError", "negative step")
+    return PipelineLedger(c, z, s1, s2)
+
+
+def inst_pipeline():
+    from contracts.core import sym_slice
+    out = []
+    for cls in ("Signal", "BasebandSignal"):
+        for has_t0 in (True, False):
+            for p1, p2 in (("sss", "sss"), ("snn", "nss"), ("nsn", "sns")):
+                def build(interp, ctx, nm, cls=cls, has_t0=has_t0, p1=p1, p2=p2):
+                    z = mk_signal(interp, ctx, "z", cls, has_t0=has_t0, nm=nm)
+                    return (z, sym_slice(nm, "ix", p1), sym_slice(nm, "jx", p2)), {}
+                out.append(Instance(f"{cls},t0={int(has_t0)},{p1},{p2}", build))
+    return out
+
+
+_pl = lemma("C01.pipeline.slice-fast_len-slice", _pipeline_body, _spec_pipeline, inst_pipeline(), ("C01",),
+            real=lambda pb, a, k: pb.fast_len(a[0][a[1]])[a[2]])
+_pl.no_bounded = True
